@@ -7,11 +7,17 @@ def run(ctx, rep):
     rep.rule = ("every token sequence of length <= %d over 19 abstract token kinds whose proper prefixes are live in the "
                 "reference grammar (spec/PvlGrammar.tla; includes every truncation and every one-token dead extension), "
                 "spelled canonically in two layouts, loaded with the 5 parser configurations; a module returned where the "
-                "reference rejects is a C05 violation. distinct = (config, token sequence, layout); non-trivial = >= 3 tokens"
+                "reference rejects is a C05 violation; character level: every string <= 4 (5 thorough) over an 18-character PVL-significant alphabet and <= 3/4 over two further alphabets (spec/MC_Loader.tla, reference lexer composed with the grammar), 5 configurations. distinct = (config, token sequence, layout); non-trivial = >= 3 tokens"
                 % maxlen)
     fails = tokenlevel.run_tokens(ctx, rep, maxlen, ["C05"])
     other = {}
     for prop, sig, case, detail in fails:
+        if prop == "C05":
+            rep.fail(sig, case, detail)
+        else:
+            other[prop] = other.get(prop, 0) + 1
+    from . import strings
+    for prop, sig, case, detail in strings.run_strings(ctx, rep):
         if prop == "C05":
             rep.fail(sig, case, detail)
         else:
